@@ -751,6 +751,8 @@ def dtype_of(o):
 
 
 def _dtype_attr(it, o, attr):
+    if attr == 'itemsize':
+        return {'bool': 1, 'int': 8, 'real': 8, 'complex': 16}[o.fields['kind']]
     if attr == 'kind':
         return {'bool': 'b', 'int': 'i', 'real': 'f', 'complex': 'c'}[o.fields['kind']]
     if attr == 'type':
